@@ -415,6 +415,29 @@ func replay(path string) int {
 		}
 	}
 	got := props.Exec(&c)
+	if got == nil && v.Shards > 0 && props.Metas[v.Property] != nil {
+		// Re-run the run sequence of the shard that found it: same seed, tier and shard
+		// layout give the same process history, including any package-level state of the
+		// code under test.
+		meta := props.Metas[v.Property]
+		ctx := core.NewCtx(v.Property, v.Tier, v.VerifSeed)
+		ctx.Shard, ctx.Shards = v.Shard, v.Shards
+		fmt.Printf("replay: the case alone shows no violation; re-running runs %d, %d, ... %d of shard %d/%d\n", v.Shard, v.Shard+v.Shards, v.Run, v.Shard, v.Shards)
+		runShardLoop(ctx, meta, v.Run+1)
+		for _, w := range ctx.Violations {
+			if w.Key == v.Key && w.Run == v.Run {
+				fmt.Printf("VIOLATION property=%s replay=%s\n  clause=%s key=%s run=%d\n  %s\n  (reproduced by re-running the shard's run sequence: the violation depends on package-level state carried from case to case)\n",
+					v.Property, abs, w.Clause, w.Key, w.Run, w.Detail)
+				return core.ExitViolation
+			}
+		}
+		for _, w := range ctx.Violations {
+			if w.Key == v.Key {
+				fmt.Printf("VIOLATION property=%s replay=%s\n  clause=%s key=%s run=%d (recorded run %d)\n  %s\n", v.Property, abs, w.Clause, w.Key, w.Run, v.Run, w.Detail)
+				return core.ExitViolation
+			}
+		}
+	}
 	if got == nil {
 		fmt.Printf("replay: property=%s clause=%s: no violation (the property holds on this case)\n", v.Property, v.Clause)
 		return core.ExitOK
